@@ -118,7 +118,10 @@ def run_c15(ctx):
     from simdag.model.refstepper import RefStepper
     tape = ctx.tape
     with tape.span("pyprog"):
-        sc, py_values = sub_values(tape, lambda: ScriptGen(tape, max_ops=8, max_phases=3).gen())
+        force = ("phases", "switch") if tape.chance(0.5, "force_switch") else ()
+        cfg = {"phase_names": ["main", "p2", "init", "primary"]} if force and tape.chance(0.7, "four") else None
+        sc, py_values = sub_values(tape, lambda: ScriptGen(tape, max_ops=8, max_phases=3, force=force, cfg=cfg).gen())
+    py_kw = {"force": list(force), "cfg": cfg}
     with tape.span("fprog"):
         scf, f_values = sub_values(tape, lambda: FortranGen(tape, max_ops=7).gen())
     # is the interpreter log comparable?  (well-defined first steps)
@@ -134,9 +137,33 @@ def run_c15(ctx):
         want_interp = False
     ctx.decoded["py_script"] = sc.text()
     ctx.decoded["f_script"] = scf.text()
-    base = {"type": "c15", "py_values": py_values, "f_values": f_values, "want_interp": want_interp}
+    with tape.span("ids"):
+        id_salt = tape.draw(4, "id_salt") if tape.chance(0.35, "handwritten_ids") else None
+    if id_salt is not None:
+        ctx.count("probe:handwritten_style_ids")
+    base = {"type": "c15", "py_values": py_values, "f_values": f_values, "want_interp": want_interp,
+            "id_salt": id_salt, "py_kw": py_kw}
+    # a few more small multi-phase programs with guarded switches, Python text only (cheap)
+    with tape.span("extra_py"):
+        extra = []
+        for _ in range(4):
+            te = Tape(seed=tape.draw(1 << 30, "extra_seed"))
+            ScriptGen(te, max_ops=6, max_phases=3, force=("phases", "switch"),
+                      cfg={"phase_names": ["main", "p2", "init", "primary"]}).gen()
+            extra.append(list(te.values))
+        base["extra_py"] = extra
     canonical = dict(base, order_seed=None, history=[])
-    requests = [(0, [canonical])]
+    # in the canonical worker's own process: another program, then the same programs again under a
+    # drawn container order -- its history then contains a generation of the very same method
+    with tape.span("again"):
+        t2 = Tape(seed=tape.draw(1 << 30, "qseed"))
+        ScriptGen(t2, max_ops=6).gen()
+        t3 = Tape(seed=tape.draw(1 << 30, "qfseed"))
+        FortranGen(t3, max_ops=6).gen()
+        q_job = {"type": "c15", "py_values": list(t2.values), "f_values": list(t3.values), "want_interp": False,
+                 "order_seed": None, "history": []}
+        again = dict(base, order_seed=1 + tape.draw(1 << 20, "again_order"), history=[])
+    requests = [(0, [canonical, q_job, again])]
     configs = []
     with tape.span("configs"):
         n_cfg = 2 + tape.draw(2, "ncfg")
@@ -161,12 +188,12 @@ def run_c15(ctx):
                             hist.append({"kind": kind, "values": list(t2.values)})
                 configs.append((h, order_seed, hist))
                 requests.append((h, [dict(base, order_seed=order_seed, history=hist)]))
-    ctx.decoded["configs"] = [{"hashseed": h, "order_seed": o, "history": [x["kind"] for x in hist]}
-                              for h, o, hist in configs]
     answers = run_workers(requests)
     can = answers[0][0]
     nontrivial = False
-    for (h, order_seed, hist), ans in zip(configs, answers[1:]):
+    configs = [(0, again["order_seed"], [{"kind": "same-method-earlier"}, {"kind": "other-method"}])] + configs
+    all_answers = [[answers[0][2]]] + answers[1:]
+    for (h, order_seed, hist), ans in zip(configs, all_answers):
         a = ans[0]
         dims = []
         if h != 0:
@@ -187,8 +214,10 @@ def run_c15(ctx):
             nontrivial = True
         dim = "+".join(dims) or "none"
         label = "worker PYTHONHASHSEED=%d order_seed=%r history=%r" % (h, order_seed, [x["kind"] for x in hist])
-        for key, cls in (("python", "python-text"), ("fortran", "fortran-text"), ("interp", "interpreter-log")):
-            exc_key = {"python": "python_exc", "fortran": "fortran_exc", "interp": "python_exc"}[key]
+        for key, cls in (("python", "python-text"), ("python_extra", "python-text"), ("fortran", "fortran-text"),
+                         ("interp", "interpreter-log")):
+            exc_key = {"python": "python_exc", "fortran": "fortran_exc", "interp": "python_exc",
+                       "python_extra": "python_exc"}[key]
             if key not in can and exc_key in can:
                 # canonical generation failed: every worker must fail the same way
                 if can.get(exc_key) != a.get(exc_key) and key != "interp":
@@ -209,6 +238,8 @@ def run_c15(ctx):
             if key == "interp":
                 ctx.count("probe:interp_compared")
         ctx.dkey(h, order_seed, [x["kind"] for x in hist])
+    ctx.decoded["configs"] = [{"hashseed": h, "order_seed": o, "history": [x["kind"] for x in hist]}
+                              for h, o, hist in configs]
     ctx.nontrivial = nontrivial
     ctx.dkey(sc.shape_sig, scf.shape_sig)
     ctx.log.add("c15", [c[:2] for c in configs])
